@@ -9,7 +9,11 @@ tie:     harness/gen_sharing.py + suite `streams` (model vs pickle-style travers
          graph, fresh and after start + run; draw log: only generators of the running chain advance,
          global generators untouched)
 search:  per-chain histories under pool=None vs deep-copying map, chunked copies, reversed / shuffled
-         evaluation, multiprocessing.Pool(k); perturbed start of one chain vs every other chain
+         evaluation, multiprocessing.Pool(k), with and without reset_after_swap; perturbed start of one
+         chain vs every other chain; a fresh interpreter that creates its pools (fork and spawn) before
+         anything of epsie exists, then builds the samplers (reset_after_swap, adaptive proposals, dynamic
+         ladder) and compares serial with pooled runs; resets compared with the values each proposal was
+         constructed with; unrelated proposals constructed in the process; class-level attributes before / after
 """
 import streams
 import gen_sharing as G
@@ -22,6 +26,7 @@ def run(chk, tier, proof_ok):
                         'mutable state): tied by the scan table and the draw log, not proved',
                         'OS scheduling and pickling fidelity are exercised (process pools), not proved; a pool that '
                         'hangs is exit code 2']
+    pf = streams.poolfirst_start(chk, tier)     # a session of its own: runs while this process works
     n = 40 if tier == 'quick' else 300
     divs, fnd = streams.correspondence(chk, n, info['variant'])
     findings = [f for f in fnd if f[0] == 'global-rng-consumed']
@@ -33,8 +38,21 @@ def run(chk, tier, proof_ok):
         if sorted(want) != sorted(kinds):
             divs.append({'cfg': cfg, 'model': 'shared after run: %s' % want, 'real': 'shared after run: %s' % kinds,
                          'order': []})
-    full = tier if (proof_ok and not divs) else 'thorough'
-    findings += streams.c07_search(chk, full)
+    # the search always runs (a failing input on the real code is a violation whether or not the model
+    # noticed): first the cases about state that no pickle carries (pools that exist before the sampler,
+    # fork and spawn; class-level attributes), then pools / orders / perturbations in this process; when a
+    # proof obligation or the correspondence is broken and the tier's search found no failing input, in full
+    broken = not (proof_ok and not divs)
+    for t in [tier] + (['thorough'] if broken and tier != 'thorough' else []):
+        started = pf if pf['tier'] == t else streams.poolfirst_start(chk, t)
+        found = streams.class_state_search(chk, t)
+        found += streams.c07_search(chk, t)
+        found += streams.poolfirst_search(chk, t, started)
+        findings += found
+        if found:
+            break
+    cs = info.get('class_state', [])
+    chk.coverage['class_level_state_scan'] = dict(info.get('class_bindings', {}), mutated=[list(x[:5]) for x in cs])
     streams.report(chk, proof_ok, divs, findings)
 
 
